@@ -7,7 +7,8 @@
 //     entries, no entry from a member beyond 4096 bytes, nothing from a header beyond 8192 bytes;
 //     nothing valid => the returned context IS the caller's context;
 //   completeness (only members written purely in the encoder's output alphabet, header within all
-//     limits): the member is kept.
+//     limits): the member is kept; with more than 180 members (header within the size limit) this
+//     still holds for the members among the first 180.
 #include <algorithm>
 
 #include "c15_common.h"
@@ -77,6 +78,20 @@ void setup(vf::Options &o) {
       for (auto &s : {all, first_bad, last_bad, alt_empty, ows, dup, meta, all + ",", "," + all, all + ",=,"}) f.inputs.push_back(s);
       // ten leading invalid members in front of n valid ones
       f.inputs.push_back(rep("bad,", 10) + all);
+    }
+    // a valid + b invalid + c valid members: the invalid ones are inside / at the edge of the first 180
+    // (10+170 = exactly 180 members; 170+10+10: the 180th member is the last invalid one; ...)
+    const int shapes[][3] = {{0, 10, 170}, {0, 10, 171}, {170, 10, 10}, {170, 10, 11}, {179, 2, 5}, {180, 1, 1}, {1, 179, 1}, {1, 180, 1}};
+    for (auto &sh : shapes) {
+      for (const char *bad : {"bad", "x=%zz", "=v"}) {
+        std::string h;
+        int id = 0;
+        for (int i = 0; i < sh[0]; ++i, ++id) h += vf::sfmt("k%d=%d,", id, id);
+        for (int i = 0; i < sh[1]; ++i) h += std::string(bad) + ",";
+        for (int i = 0; i < sh[2]; ++i, ++id) h += vf::sfmt("k%d=%d,", id, id);
+        h.pop_back();
+        f.inputs.push_back(h);
+      }
     }
     g_fam.push_back(std::move(f));
   }
@@ -174,7 +189,7 @@ void judge(vf::Ctx &c, const char *family, const std::string &in, int which_ctx)
   if (got.size() > kMaxMembers) c.fail("C15:extract:more-than-180-members", desc() + vf::sfmt(" kept %zu entries", got.size()));
   Expectation x = expect_for(in);
   if (x.must_be_empty && !got.empty()) c.fail("C15:extract:header-limit", desc() + vf::sfmt(" kept %zu entries from a header beyond 8192 bytes", got.size()));
-  if (!explains(x.members, got, false)) {
+  if (!explains(x.members, got, KeepPrefix{0})) {
     // name the first entry that no member explains (greedy scan)
     size_t mi = 0;
     std::string culprit = "(order)";
@@ -195,18 +210,25 @@ void judge(vf::Ctx &c, const char *family, const std::string &in, int which_ctx)
   // ---- completeness ------------------------------------------------------------------------------
   size_t must = 0, dontcare = 0, mustdrop = 0;
   for (auto &m : x.members) { if (m.readings.empty()) ++mustdrop; else if (m.must_keep) ++must; else ++dontcare; }
-  if (x.complete && !explains(x.members, got, true)) {
+  // header within all limits: every must-keep member; more than 180 members in a header within the size
+  // limit: every must-keep member among the first 180 members (see Expectation::keep_prefix)
+  if (!explains(x.members, got, KeepPrefix{x.keep_prefix})) {
     std::string missing;
-    size_t gi = 0;
+    size_t gi = 0, mi = 0, missing_at = 0;
     for (auto &m : x.members) {
+      if (mi++ >= x.keep_prefix) break;
       if (!m.must_keep) continue;
       size_t g = gi;
       while (g < got.size() && !(got[g] == m.readings[0])) ++g;
-      if (g == got.size()) { missing = m.text; break; }
+      if (g == got.size()) { missing = m.text; missing_at = mi; break; }
       gi = g + 1;
     }
-    c.fail(std::string("C15:extract:valid-member-dropped:") + family,
-           desc() + ": the member '" + vfq::printable(missing, 60) + "' is written in the encoder's alphabet, valid and within the limits, but the result is " + show(got));
+    if (x.complete)
+      c.fail(std::string("C15:extract:valid-member-dropped:") + family,
+             desc() + ": the member '" + vfq::printable(missing, 60) + "' is written in the encoder's alphabet, valid and within the limits, but the result is " + show(got));
+    c.fail(std::string("C15:extract:valid-member-among-first-180-dropped:") + family,
+           desc() + vf::sfmt(": the header has %zu members; member #%zu '", x.members.size(), missing_at) + vfq::printable(missing, 60) +
+               "' is among the first 180, written in the encoder's alphabet and valid, but the result is " + show(got));
   }
   c.counted("members_must_keep", must);
   c.counted("members_must_drop", mustdrop);
